@@ -21,6 +21,10 @@ CLAIMED = {
    text='TLC checks, for EVERY missing pattern of a row of N cells, every partition of the row into blocks, both directions and every limit, that the block-carried directional fill (one bridging value / count / flag per row, SFNA.BlockRowFill) equals the declarative per-cell definition, and that ValidUntouched / LimitRespected / SidedOnlyEdge / CountExact / DropnaExact hold (MC_C14, 118k states quick); every enumerated case is replayed on a real Frame with exactly that block partition; seeded random frames (incl. wide multi-run rows) recorded from the real code are validated by TLC.',
    ref='DESIGN.md section 4 (C14)', note='Trusted: TLC, the projection, NumPy. Axis-1 results are compared dtype-free and with one missing marker (layout-dependent dtype is recorded under C03). Exhaustive only inside MC_C14 bounds.',
    technique='TLA+ spec SFNA (declarative + block-carried fill) model checked with TLC; state dump replayed into the code; recorded calls validated by a TLC trace spec'),
+ 'C15': dict(
+   text='TLC checks the reduction semantics over exact rationals (SFReduce: sum/prod/min/max/mean/median/var/all/any, cumulative and arg functions, skipna propagation) on every 2x2 (thorough 2x3) Frame over {0,1,2,1/2,NaN}, proves that the block-wise two-stage evaluation along axis 1 is sound exactly for the functions the code flags composable (negative control: it fails for mean), and every enumerated call is replayed on the real Frame on every block layout; recorded random calls carry the Frame result AND the per-column/per-row Series results of the real code, and TLC (Trace_C15) checks Independent plus agreement with the rational specification.',
+   ref='DESIGN.md section 4 (C15)', note='Floats are mapped to the rational with denominator <= 10**4 they approximate; rounding is out of scope. Object/string/datetime columns are covered by the Independent check only (broad known finding).',
+   technique='TLA+ spec SFReduce (exact rationals) model checked with TLC; state dump replayed into the code; recorded calls validated by a TLC trace spec'),
 }
 REASON_TODO = 'not yet built in this round: the specification module for this property is still being written (see DESIGN.md section 9)'
 ALL = ['C%02d' % i for i in range(1, 21)]
